@@ -57,6 +57,33 @@ def run(tier):
             continue
         for key, desc in describe(e, b.get("at", [])):
             v.violation(key, desc, {"line": e if e["e"] != "Row" else {k: e[k] for k in ("W", "s", "op", "a")}})
+    # (D) use sites: the sizes the expression factory computes from file-provided counts (SizeUse.tla)
+    ms = tlc("MCSizeUse", "MCSizeUse.cfg", cwd=os.path.join(SPECS, "core"), workers=NPROC)
+    tlc_must_pass(ms, "MCSizeUse")
+    mw = tlc("MCSizeUse", "MCSizeUseWrap.cfg", cwd=os.path.join(SPECS, "core"), workers=NPROC)
+    if mw.rc != 12 or mw.violated != "Holds":
+        raise Broken("MCSizeUse with wrapping 32-bit arithmetic should violate Holds: rc=%s\n%s" % (mw.rc, mw.out[-1500:]))
+    exe2 = targets.get("h_sizes")
+    trace2 = os.path.join(d, "sizes-%s.ndjson" % tier)
+    rc2, so2, se2 = run_harness(exe2, [trace2], timeout=600)
+    lines2 = sanitize_trace(trace2, rc2, se2)
+    ok2, res2 = validate_trace("TraceSizeUse", "TraceSizeUse.cfg", trace2, cwd=os.path.join(SPECS, "core"))
+    done2 = printed_json(res2, "DONE")
+    if len(done2) != 1 or done2[0]["n"] != len(lines2):
+        raise Broken("TraceSizeUse did not reach the end of the trace\n" + res2.out[-2000:])
+    nsz = sum(1 for e in lines2 if e["e"] == "Size")
+    by_res = {}
+    for e in lines2:
+        if e["e"] == "Size": by_res[e["res"]] = by_res.get(e["res"], 0) + 1
+    if nsz < 300 or any(by_res.get(r, 0) < 20 for r in ("ok", "badalloc", "overflow")):
+        raise Broken("h_sizes: too few calls / outcomes not all exercised: %s" % by_res)
+    for b in printed_json(res2, "BAD"):
+        if b["kind"] == "crash":
+            v.violation("size-crash", "h_sizes crashed: " + json.dumps(lines2[b["line"] - 1])[:800], lines2[b["line"] - 1])
+        else:
+            v.violation("size:%s:%d" % (b["kind"], b["n"]),
+                        "ExprFactory::Begin<%s>(%d): %s, %d words requested - fewer than the %d-argument node needs"
+                        % (b["kind"], b["n"], b["res"], b["req8"], b["n"]), b)
     rcode, nnew = v.finish()
     nvals = sum(len(e["r"]) if isinstance(e.get("r"), list) else 1 for e in lines if e["e"] != "Meta")
     kinds = {}
@@ -64,14 +91,17 @@ def run(tier):
         kinds[e["e"]] = kinds.get(e["e"], 0) + (len(e["r"]) if isinstance(e.get("r"), list) else 1)
     samples = [next(json.dumps(e)[:300] for e in lines if e["e"] == k) for k in ("Row", "Wide", "WNarrow", "Narrow")]
     write_evidence(PID, tier, {
-        "states": mc.distinct + res.distinct, "transitions": mc.generated + res.generated,
-        "traces_validated_against_impl": 1, "samples": samples,
+        "states": mc.distinct + res.distinct + ms.distinct + res2.distinct, "transitions": mc.generated + res.generated + ms.generated + res2.generated,
+        "traces_validated_against_impl": 2, "samples": samples,
         "evaluations": nvals, "results_by_kind": kinds,
+        "use_site_calls": nsz, "use_site_outcomes": by_res,
         "exhaustive": True,
         "explanation": "8-bit signed and unsigned instantiations enumerated completely (all operand pairs x add/sub/mul); "
                        "all small narrowing pairs completely; 16-bit boundary x " + ("full range" if tier == "thorough" else "boundary windows") +
-                       "; int/unsigned/long/size_t boundary+seeded pairs decided with BigInt.tla",
-        "design_check": {"module": "MCSafeInt", "distinct_states": mc.distinct},
+                       "; int/unsigned/long/size_t boundary+seeded pairs decided with BigInt.tla; use sites: every Begin* of mp::ExprFactory with boundary counts up to 2^31-1, "
+                       "the allocation request it makes compared with the node size (SizeUse.tla)",
+        "design_check": {"module": "MCSafeInt", "distinct_states": mc.distinct, "MCSizeUse": ms.distinct,
+                         "self_test": "wrapping 32-bit size arithmetic violates Holds"},
         "rejected_lines": len(badl), "violations_new": nnew,
     }, time.time() - t0, violations=nnew,
         assumptions=["g++ integer promotion semantics for 8/16-bit instantiations are those of the production build",
